@@ -3,10 +3,15 @@
 What is claimed: Lean theorems (all shapes n0 x n1 >= 1) proving the *hypotheses* of the Derby-Klassen theorem for the
 strings the code builds - edge operators Hermitian and antisymmetric, edge/vertex and edge/edge (anti)commutation,
 loop products = identity on faces carrying an auxiliary qubit and commuting Hermitian involutions elsewhere, encoded
-operator Hermitian and commuting with every loop product.  The spectral statement of the property (spectrum on the joint
-+1 eigenspace = fermionic spectrum, constant multiplicity) is the *cited* consequence (Derby, Klassen, Bausch, Cubitt,
-Phys. Rev. B 104, 035118 (2021), Sec. III) and is not formalised; the oracle below checks it numerically on every
-encoding with <= 11 qubits as failing-input search support.
+operator Hermitian and commuting with every loop product (C13.lean).  The spectral statement of the property (spectrum on the
+joint +1 eigenspace = fermionic spectrum, constant multiplicity) is PROVED for single rows and single columns of every length
+(C13Spec.lean: explicit unitary equivalence matrix(compact(op)) = W matrix(op) W^H with W = Z on the odd sites of a row, W = 1 for a
+column; equal characteristic polynomials, equal sorted eigenvalue lists, equal eigenspace dimensions) and for the 2 x 2 plaquette
+(explicit monomial Clifford plaqW with plaqW matrix(compact(op)) plaqW^H = matrix(op) (x) 1_2: every level exactly twice).  For the
+other lattices with faces it remains the *cited* consequence (Derby, Klassen, Bausch, Cubitt, Phys. Rev. B 104, 035118 (2021),
+Sec. III) of the proved relations; the oracle checks it numerically on every encoding with <= 11 qubits, in the sectors of few
+particles on larger lattices, and checks for all shapes up to 8x8 / 12x12 the facts about the stabiliser group that fix the
+multiplicity (independent loop products, fermion parity not a stabiliser).
 
 Cases (JSON):
   {"op":"compact.shape","shape":[n0,n1]}                       all vertex/edge(both orientations)/loop strings of a shape
@@ -15,6 +20,10 @@ Cases (JSON):
   {"op":"compact.loop","shape":..,"face":[x,y]}                E@E@E@E around a face with the real `@`
   {"op":"ofc.face","shape":..,"i":..,"j":..}                   edge_to_odd_face_index
   {"op":"compact.encode","shape":[..],"lat":kind,"pbc":..,"ptype":..,"terms":[{"kind","dtype","coeffs"}]}
+  {"op":"compact.chain","shape":[1,n]|[n,1],"terms":[{"coeffs"}]}   compact vs Jordan-Wigner strings / matrices of the same operator (C13Spec)
+  {"op":"compact.plaq","terms":[{"coeffs"}]}                        2x2 plaquette: exact check of the explicit unitary on the matrices
+  {"op":"compact.codespace","shape":[n0,n1]}                        stabiliser-group facts from the real code's strings (oracle only)
+  {"op":"compact.sector","shape":..,"kmax":k,"coeffs":..}           spectrum on the code space in the sectors of <= k particles (oracle only)
 """
 from __future__ import annotations
 import itertools, json, os
@@ -26,7 +35,7 @@ from scipy import sparse
 from common import import_qib, run_correspondence, q as qstr, cq, unq
 
 PROP = "C13"
-LEAN_FILES = ["QibProofs/Properties/C13.lean"]
+LEAN_FILES = ["QibProofs/Properties/C13.lean", "QibProofs/Properties/C13Spec.lean"]
 GEN = ("pauli",)
 DRIVER = "drv_compact"
 LEVEL_TEXT = ("Lean 4 theorems, for every shape n0 x n1 >= 1 (symbolic case analysis on the parities of the site coordinates, no "
@@ -34,11 +43,24 @@ LEVEL_TEXT = ("Lean 4 theorems, for every shape n0 x n1 >= 1 (symbolic case anal
               "edge_to_odd_face_index / compact_encode_field_operator built on the C09 Pauli model (tables regenerated from the source): "
               "the edge, vertex and loop relations that are the hypotheses of the Derby-Klassen theorem, Hermiticity of the encoded "
               "operator and its commutation with every loop product, at string level and transported to matrices by the C09 lemmas. "
-              "C13 is claimed as PROOF OF THE HYPOTHESES + CITED CONSEQUENCE: the spectral statement (restricted to the joint +1 eigenspace "
-              "of the loop products the spectrum equals the fermionic one with constant multiplicity) is the Derby-Klassen theorem "
-              "(Phys. Rev. B 104, 035118) applied to these relations; it is not formalised, only checked numerically by the oracle on "
-              "encodings with <= 11 qubits. The model is tied to the code by exact differential runs, exhaustive over all shapes 1x1..5x5.")
-ASSUMPTIONS = ["the spectral equivalence on the stabiliser code space is cited (Derby-Klassen), not formalised; the Lean theorems prove its hypotheses",
+              "The spectral statement (restricted to the joint +1 eigenspace of the loop products the spectrum equals the fermionic one with "
+              "constant multiplicity) is PROVED (C13Spec.lean) for single rows and single columns of EVERY length - there are no faces, the "
+              "code space is the whole register, and matrix(compact(op)) = W matrix(op) W^H with the explicit unitary W = Z on the odd sites "
+              "(row) resp. W = 1 (column), where matrix(op) is the field operator's own Jordan-Wigner matrix of C11; corollaries: equal "
+              "characteristic polynomials, equal sorted eigenvalue lists (Mathlib's spectral theorem), equal eigenspace dimensions - and for "
+              "the 2x2 plaquette (explicit monomial Clifford plaqW, plaqW matrix(compact(op)) plaqW^H = matrix(op) (x) 1_2, characteristic "
+              "polynomial = square of the fermionic one). For all other lattices with faces the statement remains the CITED Derby-Klassen "
+              "theorem (Phys. Rev. B 104, 035118) applied to the proved relations; it is checked numerically by the oracle (all encodings "
+              "with <= 11 qubits; few-particle sectors up to 4x5; stabiliser-group facts for all shapes up to 8x8 / 12x12). The model is tied "
+              "to the code by exact differential runs, exhaustive over all shapes 1x1..5x5; the explicit unitaries of the theorems are tied to "
+              "the code by exact matrix comparisons on the implementation (chains up to 10 sites, the plaquette) and by comparing the "
+              "compact strings conjugated by W with the strings of the real Jordan-Wigner encoder.")
+ASSUMPTIONS = ["the spectral equivalence on the stabiliser code space is proved for single rows / columns of every length and for the 2x2 plaquette; for other "
+               "lattices with faces it is cited (Derby-Klassen), not formalised; the Lean theorems prove its hypotheses",
+               "chain / plaquette theorems assume an exactly symmetric coefficient matrix (the property's wording); without that hypothesis the proved statement is "
+               "about the operator symmetrised from the diagonal and upper triangle, which is what the encoder reads (C13_row_unitary_equiv_upper)",
+               "jordan_wigner_encode_field_operator drops strings with |weight| <= 1e-14: string-level comparison with it is skipped for operators that small "
+               "(the matrix-level comparisons do not involve that encoder)",
                "coefficients cross the boundary as exact dyadic rationals; float rounding of `0.5 * c`, of the running identity coefficient and of "
                "np.allclose is not modelled (generated coefficients are multiples of 1/16 with |c| <= 4, asymmetric inputs are off by >= 1/8)",
                "extents >= 1 (extent 0 is not exercised); coefficient arrays have the shape (nsites, nsites) the field demands",
@@ -49,9 +71,13 @@ RULE = ("exhaustive over all shapes 1x1..5x5: the complete set of vertex / edge 
         "non-neighbour pairs; seeded random shapes up to 8x8 (quick) / 12x12 (thorough) at string level; encodings of seeded random "
         "symmetric dyadic coefficient matrices (on-site + nearest-neighbour, with zeros) for all shapes with <= 11 qubits numerically and "
         "shapes up to 5x5 at string level, plus a malformed stream (asymmetric, integer/complex dtype, non-neighbour hopping, periodic / "
-        "non-integer / 1-D / 3-D lattice, bosonic field, other operator patterns, several terms); non-trivial = the code returned a value; "
+        "non-integer / 1-D / 3-D lattice, bosonic field, other operator patterns, several terms); chains 1 x n and n x 1 for every n <= 10 "
+        "(exact matrix comparison with the W of the theorem + sorted eigenvalues + strings vs the real Jordan-Wigner encoder), longer chains at "
+        "string level; the 2x2 plaquette with seeded coefficients (exact comparison with plaqW); stabiliser-group facts for all shapes up to 8x8 "
+        "(thorough: 12x12); few-particle sectors on 3x4, 4x3, 4x4, 2x6 (thorough: also 3x5, 4x5, 2x7, 5x3); non-trivial = the code returned a value; "
         "distinct = distinct case dicts")
-TECHNIQUE = "Lean 4 theorems about a model of the code + correspondence tie checked on every run; cited Derby-Klassen theorem for the spectral consequence"
+TECHNIQUE = ("Lean 4 theorems about a model of the code + correspondence tie checked on every run; spectral statement proved by explicit unitary equivalence for "
+             "chains of every length and the 2x2 plaquette, cited Derby-Klassen theorem for the other lattices with faces")
 
 _ctx = {}
 NAME = {(0, 0): "I", (0, 1): "X", (1, 1): "Y", (1, 0): "Z"}
@@ -603,6 +629,464 @@ def oracle_spectrum(case, v, Hop, shape, loops):
 
 
 # ---------------------------------------------------------------------------------------------
+# spectral part (C13Spec.lean): single rows / columns - explicit unitary equivalence with the fermionic operator
+# ---------------------------------------------------------------------------------------------
+
+CHAIN_MATRIX_MAX = 10          # exact comparison matrix(compact) == W matrix(op) W^H and eigenvalue oracle up to this many sites
+
+
+def chain_W(shape):
+    """z-mask of the Pauli string W of the chain theorem: Z on every odd site of a row (n0 == 1), identity for a column"""
+    n0, n1 = shape
+    n = n0 * n1
+    return [1 if (n0 == 1 and k % 2 == 1) else 0 for k in range(n)]
+
+
+def canon_strings(strings):
+    """[(z, x, q, weight)] -> {letters: weight * (-i)^q}: phases moved into the weights, equal strings merged, zeros dropped (exact)"""
+    acc = {}
+    for z, x, qq, w in strings:
+        key = (tuple(z), tuple(x))
+        ph = [(1, 0), (0, -1), (-1, 0), (0, 1)][qq % 4]
+        re, im = w
+        val = (ph[0] * re - ph[1] * im, ph[0] * im + ph[1] * re)
+        old = acc.get(key, (Fraction(0), Fraction(0)))
+        acc[key] = (old[0] + val[0], old[1] + val[1])
+    return {k: v for k, v in acc.items() if v != (0, 0)}
+
+
+def in_pruning_regime(canon):
+    """jordan_wigner_encode_field_operator drops strings with |weight| <= 1e-14 (C11's documented tolerance): for such tiny operators its
+    string set is not comparable; the matrix-level comparisons below do not involve that encoder and stay exact"""
+    return any(max(abs(v[0]), abs(v[1])) <= Fraction(1, 10 ** 13) for v in canon.values())
+
+
+def op_strings(H):
+    return [([int(v) for v in w.paulis.z], [int(v) for v in w.paulis.x], int(w.paulis.q),
+             (Fraction(float(np.real(w.weight))), Fraction(float(np.imag(w.weight))))) for w in H.pstrings]
+
+
+def conj_by_W(strings, wz):
+    """W P W^H for W = Z^wz: sign (-1)^(wz . x)"""
+    out = []
+    for z, x, qq, w in strings:
+        s = sum(a & b for a, b in zip(wz, x)) % 2
+        out.append((z, x, (qq + 2 * s) % 4, w))
+    return out
+
+
+def impl_chain(case):
+    def f():
+        qib = _ctx["qib"]
+        shape = tuple(case["shape"])
+        n = shape[0] * shape[1]
+        fop, _ = build_fieldop({"shape": shape, "pbc": False, "lat": "integer", "ptype": "fermion",
+                                "terms": [{"kind": "hop", "dtype": "float", "coeffs": t["coeffs"]} for t in case["terms"]]})
+        Hc, lenc = _ctx["ce"].compact_encode_field_operator(fop)
+        from qib.transform.jordan_wigner_encoding import jordan_wigner_encode_field_operator
+        Hj = jordan_wigner_encode_field_operator(fop)
+        sc, sj = op_strings(Hc), op_strings(Hj)
+        out = {"nsites": int(lenc.nsites), "compact": sc, "jw": sj}
+        if n <= CHAIN_MATRIX_MAX:
+            A = np.asarray(Hc.as_matrix().todense() if sparse.issparse(Hc.as_matrix()) else Hc.as_matrix(), dtype=complex)
+            B = np.asarray(fop.as_matrix().todense(), dtype=complex)
+            out["_A"], out["_B"] = A, B
+        return out
+    r = guarded(f)
+    if "val" in r and "_A" in r["val"]:
+        r["_A"], r["_B"] = r["val"].pop("_A"), r["val"].pop("_B")
+    return r
+
+
+def frac_pair(w):
+    return (Fraction(unq(w[0])), Fraction(unq(w[1])))
+
+
+def model_strings(lst):
+    return [(p["z"], p["x"], p["q"], frac_pair(w)) for _, p, w in lst]
+
+
+def compare_chain(case, o, m):
+    if "harness_exception" in o:
+        return "harness exception: " + o["harness_exception"]
+    if ("raised" in o) != ("raised" in m):
+        return f"impl {pub(o)} != model {m}"
+    if "raised" in o:
+        return None if o["raised"] == m["raised"] else f"exception class: impl {o['raised']} != model {m['raised']}"
+    a, b = o["val"], m["val"]
+    wz = chain_W(case["shape"])
+    if a["nsites"] != b["nsites"]:
+        return f"register size: impl {a['nsites']} != model {b['nsites']}"
+    if b["W"]["z"] != wz or any(b["W"]["x"]) or b["W"]["q"] != 0:
+        return f"the model's chainW is {b['W']}, expected Z-mask {wz}"
+    key = lambda e: (e[0], e[1], e[2], e[3])
+    if sorted(map(key, a["compact"])) != sorted(map(key, model_strings(b["compact"]))):
+        return "compact-encoded (string, weight) sets differ between implementation and model"
+    if not in_pruning_regime(canon_strings(model_strings(b["jwraw"]))) and canon_strings(a["jw"]) != canon_strings(model_strings(b["jwraw"])):
+        return "Jordan-Wigner encoding of the field operator: implementation != model encoding of fermiOp (canonical string sets)"
+    if canon_strings(model_strings(b["jw"])) != canon_strings(model_strings(b["jwraw"])):
+        return "model: canonOp changed the Jordan-Wigner operator"
+    if canon_strings(model_strings(b["conj"])) != canon_strings(model_strings(b["jw"])):
+        return "model: the compact operator conjugated by chainW is not the Jordan-Wigner operator (instance of C13_chain_conj_eq_jw)"
+    if canon_strings(model_strings(b["conj"])) != canon_strings(conj_by_W(model_strings(b["compact"]), wz)):
+        return "model: conjOp/canonOp disagree with the reference conjugation"
+    return tie_chain_W(case, o)
+
+
+def oracle_chain(case, o):
+    """the statement itself on the implementation: the register has n qubits (no auxiliary qubit, the code space is everything), the encoded
+    matrix is Hermitian and its sorted eigenvalues are those of the fermionic matrix (FieldOperator.as_matrix), level by level"""
+    if "harness_exception" in o:
+        return []
+    shape = tuple(case["shape"])
+    kind = "row" if shape[0] == 1 else "column"
+    if "raised" in o:
+        return [(f"C13:chain:admissible-input-rejected:{kind}", f"{o['raised']} for a real symmetric on-site + nearest-neighbour operator on {shape}")]
+    v = o["val"]
+    bad = []
+    n = shape[0] * shape[1]
+    if v["nsites"] != n:
+        bad.append((f"C13:chain:register-size:{kind}", f"shape {shape}: {v['nsites']} qubits for {n} sites (a chain has no auxiliary qubit)"))
+        return bad
+    if "_A" in o:
+        A, B = o["_A"], o["_B"]
+        d = 2 ** n
+        if A.shape != (d, d) or B.shape != (d, d):
+            return bad + [(f"C13:chain:matrix-shape:{kind}", f"shape {shape}: encoded {A.shape}, fermionic {B.shape}")]
+        scale = float(np.max(np.abs(B))) if B.size and np.max(np.abs(B)) > 0 else 1.0      # the spectrum scales with the coefficients
+        if not np.all(np.isfinite(A)) or np.max(np.abs(A - A.conj().T)) > 1e-12 * scale:
+            bad.append((f"C13:chain:encoded-matrix-not-hermitian:{kind}", f"shape {shape}"))
+        else:
+            ea = np.linalg.eigvalsh(A)
+            eb = np.linalg.eigvalsh((B + B.conj().T) / 2)
+            if np.max(np.abs(B - B.conj().T)) > 1e-12 * scale or not np.allclose(ea, eb, rtol=0, atol=1e-9 * scale):
+                k = int(np.argmax(np.abs(ea - eb)))
+                bad.append((f"C13:chain:spectrum-mismatch:{kind}", f"shape {shape}: sorted eigenvalues of the encoded and the fermionic matrix differ, "
+                                                                 f"largest deviation at level {k}: {ea[k]} vs {eb[k]}"))
+    return bad
+
+
+def chain_sign(shape):
+    """diagonal of the W of the chain theorem (flat index, site 0 most significant)"""
+    n = shape[0] * shape[1]
+    wz = chain_W(shape)
+    sign = np.ones(2 ** n)
+    for idx in range(2 ** n):
+        par = 0
+        for k in range(n):
+            if wz[k] and (idx >> (n - 1 - k)) & 1:
+                par ^= 1
+        if par:
+            sign[idx] = -1.0
+    return sign
+
+
+def tie_chain_W(case, o):
+    """tie of the explicit unitary of C13_row/col_unitary_equiv to the code: matrix(compact(op)) == W matrix(op) W^H EXACTLY (dyadic
+    coefficients: the float arithmetic of both as_matrix() is exact), and the compact strings conjugated by W are the strings the real
+    Jordan-Wigner encoder returns for the same operator.  A disagreement is a broken tie (the theorem's W no longer describes the code);
+    whether the PROPERTY fails is decided by the oracle (sorted eigenvalues)."""
+    shape = tuple(case["shape"])
+    v = o["val"]
+    wz = chain_W(shape)
+    if not in_pruning_regime(canon_strings(v["compact"])) and canon_strings(conj_by_W(v["compact"], wz)) != canon_strings(v["jw"]):
+        d = sorted(set(canon_strings(conj_by_W(v["compact"], wz)).items()) ^ set(canon_strings(v["jw"]).items()), key=str)[:2]
+        return f"shape {shape}: W (compact strings) W^H differs from the Jordan-Wigner strings of the same operator, e.g. {d}"
+    if "_A" in o:
+        A, B = o["_A"], o["_B"]
+        sign = chain_sign(shape)
+        WBW = (sign[:, None] * B) * sign[None, :]
+        if A.shape != WBW.shape or not (np.all(np.isfinite(A)) and np.array_equal(A, WBW)):
+            k = np.unravel_index(int(np.argmax(np.abs(A - WBW))), A.shape) if A.shape == WBW.shape else None
+            return (f"shape {shape}: matrix(compact(op)) != W matrix(op) W^H with the W of the theorem" +
+                    (f" at entry {tuple(int(t) for t in k)}: {A[k]} vs {WBW[k]}" if k is not None else ""))
+    return None
+
+
+def chain_coeffs(rng, n, zero_p=0.2):
+    c = [[0.0] * n for _ in range(n)]
+    for a in range(n):
+        c[a][a] = dyadic(rng, zero_p)
+        if a + 1 < n:
+            c[a][a + 1] = c[a + 1][a] = dyadic(rng, zero_p)
+    return c
+
+
+def gen_chain(tier, rng):
+    T = tier == "thorough"
+    for n in range(1, CHAIN_MATRIX_MAX + 1):
+        for shape in ((1, n), (n, 1)):
+            reps = (12 if T else 3) if n <= 6 else ((6 if T else 2) if n <= 8 else (3 if T else 1))
+            for r in range(reps):
+                yield {"op": "compact.chain", "shape": list(shape), "terms": [{"coeffs": chain_coeffs(rng, n, 0.0 if r == 0 else 0.25)}]}
+            if n <= 6 or T:
+                yield {"op": "compact.chain", "shape": list(shape), "terms": [{"coeffs": [[0.0] * n for _ in range(n)]}]}
+                yield {"op": "compact.chain", "shape": list(shape), "terms": [{"coeffs": chain_coeffs(rng, n)}, {"coeffs": chain_coeffs(rng, n)}]}
+                e = rng.choice([-30, -45, 24])
+                yield {"op": "compact.chain", "shape": list(shape), "terms": [{"coeffs": [[v * 2.0 ** e for v in row] for row in chain_coeffs(rng, n, 0.1)]}]}
+    # longer chains: string level only (model and implementation), no matrices
+    for n in ([11, 14, 17, 23] if T else [11, 16]):
+        for shape in ((1, n), (n, 1)):
+            yield {"op": "compact.chain", "shape": list(shape), "terms": [{"coeffs": chain_coeffs(rng, n, 0.1)}]}
+
+
+def model_req_chain(case):
+    return {"op": "compact.chain", "shape": list(case["shape"]),
+            "terms": [{"hop": True, "float": True, "coeffs": [[qstr(v) for v in row] for row in t["coeffs"]]} for t in case["terms"]]}
+
+
+# ---------------------------------------------------------------------------------------------
+# spectral part, lattices with faces: the 2 x 2 plaquette (explicit unitary of C13_plaquette_unitary_equiv_partial), and the facts
+# about the stabiliser group / the spectrum in the sectors of few particles that make "every level the same number of times" true
+# ---------------------------------------------------------------------------------------------
+
+def plaq_W():
+    """plaqW |b> = i^{Q(pi b)} |pi b>, pi b = (b0,b1,b2,b3,b4^b1^b2), Q(b) = b1 + 3 b3 + 2 (b1 b2 + b1 b4 + b3 b4); flat index: qubit 0 most significant"""
+    W = np.zeros((32, 32), dtype=complex)
+    for c in range(32):
+        b = [(c >> (4 - k)) & 1 for k in range(5)]
+        pb = b[:4] + [b[4] ^ b[1] ^ b[2]]
+        Q = pb[1] + 3 * pb[3] + 2 * (pb[1] * pb[2] + pb[1] * pb[4] + pb[3] * pb[4])
+        r = sum(v << (4 - k) for k, v in enumerate(pb))
+        W[r, c] = [1, 1j, -1, -1j][Q % 4]
+    return W
+
+
+def impl_plaq(case):
+    def f():
+        fop, _ = build_fieldop({"shape": (2, 2), "pbc": False, "lat": "integer", "ptype": "fermion",
+                                "terms": [{"kind": "hop", "dtype": "float", "coeffs": t["coeffs"]} for t in case["terms"]]})
+        H, lenc = _ctx["ce"].compact_encode_field_operator(fop)
+        strings = [[canon(w.paulis), cq(w.weight)] for w in H.pstrings]
+        A = H.as_matrix()
+        A = np.asarray(A.todense() if sparse.issparse(A) else A, dtype=complex)
+        B = np.asarray(fop.as_matrix().todense(), dtype=complex)
+        return {"nsites": int(lenc.nsites), "herm": bool(H.is_hermitian()), "strings": strings}, A, B
+    r = guarded(f)
+    if "val" in r:
+        r["val"], r["_A"], r["_B"] = r["val"]
+    return r
+
+
+def model_req_plaq(case):
+    return {"op": "compact.encode", "nfields": 1, "fermion": True, "integer": True, "shape": [2, 2], "pbc": [False, False],
+            "terms": [{"hop": True, "float": True, "coeffs": [[qstr(v) for v in row] for row in t["coeffs"]]} for t in case["terms"]]}
+
+
+def compare_plaq(case, o, m):
+    d = compare({"op": "compact.encode"}, o, m)
+    if d or "val" not in o:
+        return d
+    # tie of the explicit unitary of C13_plaquette_unitary_equiv_partial to the code (exact)
+    A, B = o["_A"], o["_B"]
+    if A.shape != (32, 32) or B.shape != (16, 16):
+        return f"matrix shapes: encoded {A.shape}, fermionic {B.shape}"
+    W = plaq_W()
+    lhs = W @ A @ W.conj().T
+    rhs = np.kron(B, np.eye(2))
+    if not (np.all(np.isfinite(lhs)) and np.array_equal(lhs, rhs)):
+        k = np.unravel_index(int(np.argmax(np.abs(lhs - rhs))), lhs.shape)
+        return f"plaqW matrix(compact(op)) plaqW^H != matrix(op) (x) 1_2 at entry {tuple(int(t) for t in k)}: {lhs[k]} vs {rhs[k]}"
+    return None
+
+
+def oracle_plaq(case, o):
+    if "harness_exception" in o:
+        return []
+    if "raised" in o:
+        return [("C13:plaquette:admissible-input-rejected", f"{o['raised']} for a real symmetric on-site + nearest-neighbour operator on (2, 2)")]
+    A, B = o["_A"], o["_B"]
+    bad = []
+    if A.shape != (32, 32) or B.shape != (16, 16):
+        return [("C13:plaquette:matrix-shape", f"encoded {A.shape}, fermionic {B.shape}")]
+    scale = float(np.max(np.abs(B))) if np.max(np.abs(B)) > 0 else 1.0
+    if np.max(np.abs(A - A.conj().T)) <= 1e-12 * scale:
+        ea = np.linalg.eigvalsh(A)
+        eb = np.repeat(np.linalg.eigvalsh((B + B.conj().T) / 2), 2)
+        if not np.allclose(ea, eb, rtol=0, atol=1e-9 * scale):
+            k = int(np.argmax(np.abs(ea - eb)))
+            bad.append(("C13:plaquette:spectrum-mismatch", f"sorted eigenvalues of the encoded operator differ from the fermionic levels taken twice at level {k}: {ea[k]} vs {eb[k]}"))
+    else:
+        bad.append(("C13:plaquette:encoded-matrix-not-hermitian", "(2, 2)"))
+    return bad
+
+
+def gen_plaq(tier, rng):
+    T = tier == "thorough"
+    for r in range(60 if T else 12):
+        yield {"op": "compact.plaq", "terms": [{"coeffs": rand_coeffs(rng, 2, 2, 0.0 if r < 3 else 0.25)}]}
+    for e in (-30, -45, 24):
+        yield {"op": "compact.plaq", "terms": [{"coeffs": [[v * 2.0 ** e for v in row] for row in rand_coeffs(rng, 2, 2, 0.1)]}]}
+    yield {"op": "compact.plaq", "terms": [{"coeffs": [[0.0] * 4 for _ in range(4)]}]}
+    yield {"op": "compact.plaq", "terms": [{"coeffs": rand_coeffs(rng, 2, 2)}, {"coeffs": rand_coeffs(rng, 2, 2)}]}
+
+
+def gf2_rank(rows):
+    rows = [int("".join(str(int(b)) for b in r), 2) for r in rows]
+    rank = 0
+    while rows:
+        p = rows.pop()
+        if p:
+            rank += 1
+            low = p & -p
+            rows = [r ^ p if r & low else r for r in rows]
+    return rank
+
+
+def impl_codespace(case):
+    return guarded(lambda: shape_strings(case["shape"]))
+
+
+def oracle_codespace(case, o):
+    """string level, any shape: the loop products of the faces WITHOUT auxiliary qubit are independent (so the joint +1 eigenspace has
+    dimension 2^(qubits - #plain faces) = 2^V * 2^(#aux faces - #plain faces)), no product of them is -1, and the fermion parity
+    operator prod_j V_j is not (+-) a product of them: both parity sectors occur in the code space with the same multiplicity"""
+    if "raised" in o or "harness_exception" in o:
+        return []
+    v = o["val"]
+    n0, n1 = case["shape"]
+    nv, N = n0 * n1, v["nsites"]
+    plain = [p for c, p in v["loops"] if (c[0] + c[1]) % 2 == 1]
+    naux = sum(1 for c, p in v["loops"] if (c[0] + c[1]) % 2 == 0)
+    bad = []
+    if N != nv + naux:
+        bad.append(("C13:codespace:auxiliary-qubit-count", f"shape {case['shape']}: {N} qubits, {nv} vertices, {naux} faces with x + y even"))
+    rows = [p["z"] + p["x"] for p in plain]
+    r = gf2_rank(rows)
+    if r != len(plain):
+        bad.append(("C13:codespace:loop-products-dependent", f"shape {case['shape']}: the {len(plain)} loop products of the plain faces have rank {r}: "
+                                                             "the joint +1 eigenspace is larger than 2^(qubits - faces) or empty"))
+    parity = [1] * nv + [0] * (N - nv) + [0] * N
+    if gf2_rank(rows + [parity]) != r + 1:
+        bad.append(("C13:codespace:parity-is-a-stabiliser", f"shape {case['shape']}: prod_j V_j is (up to sign) a product of loop products: the code space "
+                                                            "carries only one fermion-parity sector, the levels of the other one are missing"))
+    m = naux - len(plain)
+    if m not in (0, 1) or (m == 1) != (n0 % 2 == 0 and n1 % 2 == 0):
+        bad.append(("C13:codespace:multiplicity", f"shape {case['shape']}: #aux faces - #plain faces = {m}"))
+    return bad
+
+
+PH4 = [1, -1j, -1, 1j]
+
+
+def _apply_string(z, x, qq, b):
+    nb = tuple(bi ^ xi for bi, xi in zip(b, x))
+    e = qq + sum(zi & xi for zi, xi in zip(z, x))
+    s = sum(zi & ci for zi, ci in zip(z, nb))
+    return nb, PH4[e % 4] * (-1) ** (s % 2)
+
+
+def impl_sector(case):
+    def f():
+        shape = tuple(case["shape"])
+        fop, _ = build_fieldop({"shape": shape, "pbc": False, "lat": "integer", "ptype": "fermion",
+                                "terms": [{"kind": "hop", "dtype": "float", "coeffs": case["coeffs"]}]})
+        H, lenc = _ctx["ce"].compact_encode_field_operator(fop)
+        return {"nsites": int(lenc.nsites)}, H
+    r = guarded(f)
+    if "val" in r:
+        r["val"], r["_H"] = r["val"]
+    return r
+
+
+def oracle_sector(case, o):
+    """the spectral statement on lattices too large for dense matrices: H commutes with the particle number sum_j (1 - V_j)/2, so it can be
+    restricted to the span of the basis states with k occupied vertex qubits (any auxiliary state), which the loop products map to itself;
+    on the joint +1 eigenspace inside that span the spectrum must be the k-particle levels of h (sums of k distinct eigenvalues), each
+    repeated 2^(#aux faces - #plain faces) times"""
+    if "harness_exception" in o:
+        return []
+    shape = tuple(case["shape"])
+    if "raised" in o:
+        return [("C13:sector:admissible-input-rejected", f"{o['raised']} on {shape}")]
+    n0, n1 = shape
+    L = n0 * n1
+    N = o["val"]["nsites"]
+    A_ = N - L
+    hs = [(tuple(int(t) for t in w.paulis.z), tuple(int(t) for t in w.paulis.x), int(w.paulis.q), complex(w.weight)) for w in o["_H"].pstrings]
+    ss = shape_strings(shape)
+    ls = [(tuple(p["z"]), tuple(p["x"]), p["q"]) for c, p in ss["loops"] if (c[0] + c[1]) % 2 == 1]
+    h = np.array(case["coeffs"], dtype=float)
+    ev = np.linalg.eigvalsh(h)
+    scale = max(1.0, float(np.max(np.abs(h))))
+    bad = []
+    import math
+    for k in range(case["kmax"] + 1):
+        basis = []
+        for occ in itertools.combinations(range(L), k):
+            vbits = [0] * L
+            for t in occ:
+                vbits[t] = 1
+            for a in itertools.product((0, 1), repeat=A_):
+                basis.append(tuple(vbits) + a)
+        idx = {b: i for i, b in enumerate(basis)}
+        d = len(basis)
+
+        def mat(strings):
+            rows, cols, vals, leak = [], [], [], {}
+            for j, b in enumerate(basis):
+                for z, x, qq, w in strings:
+                    nb, amp = _apply_string(z, x, qq, b)
+                    if nb in idx:
+                        rows.append(idx[nb]); cols.append(j); vals.append(amp * w)
+                    else:
+                        leak[(nb, j)] = leak.get((nb, j), 0) + amp * w
+            return sparse.csr_matrix((vals, (rows, cols)), shape=(d, d)), max([abs(t) for t in leak.values()], default=0.0)
+        Hm, leak = mat(hs)
+        if leak > 1e-12 * scale:
+            return bad + [("C13:sector:particle-number-not-conserved", f"shape {shape}: the encoded operator maps the {k}-particle span out of itself (amplitude {leak})")]
+        P = sparse.identity(d, format="csr", dtype=complex)
+        for z, x, qq in ls:
+            Lm, lk = mat([(z, x, qq, 1.0)])
+            if lk > 0 or amax(Hm @ Lm - Lm @ Hm) > 1e-12 * scale:
+                return bad + [("C13:sector:loop-does-not-commute", f"shape {shape}, {k} particles")]
+            P = (P @ (sparse.identity(d) + Lm)) * 0.5
+        Pc = sparse.csc_matrix(P)
+        covered = np.zeros(d, dtype=bool)
+        cols, sc = [], []
+        for j in range(d):
+            if covered[j]:
+                continue
+            lo, hi = Pc.indptr[j], Pc.indptr[j + 1]
+            ii = Pc.indices[lo:hi][np.abs(Pc.data[lo:hi]) > 1e-14]
+            if len(ii) == 0:
+                continue
+            covered[ii] = True
+            cols.append(j)
+            sc.append(1.0 / np.sqrt(P[j, j].real))
+        r = len(cols)
+        B = Pc[:, cols] @ sparse.diags(sc)
+        if r == 0 or amax(B.getH() @ B - sparse.identity(r)) > 1e-10:
+            return bad + [("C13:sector:joint-projector-broken", f"shape {shape}, {k} particles: range dimension {r}")]
+        mult = 2 ** (A_ - len(ls))
+        want = np.repeat(np.array(sorted(sum(t) for t in itertools.combinations(ev, k))), mult)
+        if r != mult * math.comb(L, k):
+            bad.append(("C13:sector:code-space-dimension", f"shape {shape}: the {k}-particle part of the joint +1 eigenspace has dimension {r}, "
+                                                           f"expected {mult} x C({L},{k})"))
+            continue
+        got = np.linalg.eigvalsh((B.getH() @ Hm @ B).toarray())
+        if not np.allclose(got, want, rtol=0, atol=1e-8 * scale):
+            t = int(np.argmax(np.abs(got - want)))
+            bad.append(("C13:sector:spectrum-mismatch", f"shape {shape}: {k}-particle levels on the joint +1 eigenspace differ from the fermionic ones "
+                                                        f"(each x{mult}) at level {t}: {got[t]} vs {want[t]}"))
+    return bad
+
+
+def gen_codespace(tier, rng):
+    hi = 12 if tier == "thorough" else 8
+    for n0 in range(1, hi + 1):
+        for n1 in range(1, hi + 1):
+            yield {"op": "compact.codespace", "shape": [n0, n1]}
+
+
+def gen_sector(tier, rng):
+    T = tier == "thorough"
+    plan = [((3, 4), 2), ((4, 3), 1), ((4, 4), 1), ((2, 6), 2)] + ([((4, 4), 2), ((3, 5), 2), ((4, 5), 1), ((2, 7), 2), ((5, 3), 2)] if T else [])
+    for shape, kmax in plan:
+        yield {"op": "compact.sector", "shape": list(shape), "kmax": kmax, "coeffs": rand_coeffs(rng, *shape, zero_p=0.05)}
+
+
+# ---------------------------------------------------------------------------------------------
 # generators
 # ---------------------------------------------------------------------------------------------
 
@@ -771,6 +1255,33 @@ def run(rep, tier, rng, drv):
         return o
     run_correspondence(rep, drv, gen_cases(tier, rng), counted_impl, model_req, compare, oracle, "drv_compact ops", batch=1500,
                        nontrivial=lambda c, o: "val" in o)
+    def counted_chain(c):
+        o = impl_chain(c)
+        n = c["shape"][0] * c["shape"][1]
+        rep.count(("chain:row" if c["shape"][0] == 1 else "chain:column") + (":raised:" + o["raised"] if "raised" in o else ":returned"))
+        if "val" in o:
+            rep.count("chain:matrix-and-spectrum-checked" if "_A" in o else "chain:string-level-only")
+        return o
+    run_correspondence(rep, drv, gen_chain(tier, rng), counted_chain, model_req_chain, compare_chain, oracle_chain, "drv_compact chain", batch=400,
+                       nontrivial=lambda c, o: "val" in o)
+    def counted_plaq(c):
+        o = impl_plaq(c)
+        rep.count("plaquette" + (":raised:" + o["raised"] if "raised" in o else ":returned"))
+        return o
+    run_correspondence(rep, drv, gen_plaq(tier, rng), counted_plaq, model_req_plaq, compare_plaq, oracle_plaq, "drv_compact plaquette", batch=400,
+                       nontrivial=lambda c, o: "val" in o)
+    # oracle-only stages (no model involved): stabiliser-group facts for all shapes up to 8x8 / 12x12, spectra in few-particle sectors
+    run_correspondence(rep, None, gen_codespace(tier, rng), impl_codespace, None, None, oracle_codespace, "codespace (oracle only)",
+                       nontrivial=lambda c, o: "val" in o)
+
+    def counted_sector(c):
+        o = impl_sector(c)
+        rep.count(f"sector:{'x'.join(map(str, c['shape']))}:k<={c['kmax']}")
+        return o
+    run_correspondence(rep, None, gen_sector(tier, rng), counted_sector, None, None, oracle_sector, "sector spectrum (oracle only)",
+                       nontrivial=lambda c, o: "val" in o)
     rep.cov["exhaustive"] = {"shapes 1x1..5x5: all vertices, all edges in both orientations, all faces": True,
                              "edge_to_odd_face_index on all nearest-neighbour pairs of the enlarged box, shapes 1x1..5x5": True}
-    rep.cov["cited_not_formalised"] = "spectral equivalence on the stabiliser code space (Derby-Klassen, Phys. Rev. B 104, 035118); checked numerically for <= 11 qubits"
+    rep.cov["cited_not_formalised"] = ("spectral equivalence on the stabiliser code space for lattices with faces other than 2x2 (Derby-Klassen, Phys. Rev. B 104, "
+                                       "035118); PROVED for single rows / columns of every length and for the 2x2 plaquette (C13Spec.lean); checked numerically for <= 11 "
+                                       "qubits, in few-particle sectors up to 4x5, and at the level of the stabiliser group for all shapes up to 8x8 / 12x12")
